@@ -94,6 +94,30 @@ func VH_C14_history() {
 	vObserve("len", len(baseOut[0]))
 }
 
+//verif:harness prop=C14 quick=2 thorough=2 merge=none models=scan,term,hash timeout=1500
+//verif:bounds crash histories through the real `gts delete 5..6`: a stream of two records, the first of 6 symbolic residues, the second of 4 (the command panics on it after the first record has been written: slice bounds in gts.Delete; shard 0) or of 6 (no crash; shard 1); the same invocation three times over one cache directory (cold, then twice more); a panic unwinds the command (deferred calls run) and ends the process before main() reaches closeCaches; each run's status (ok / error / crash) and stdout bytes equal those of the --no-cache run
+//verif:assume scanner = queue of the records, in-memory file system, flate framing model, uninterpreted digests, json.Marshal modelled by an injective structural encoding (the real encodePayload runs); bytes written to a file before the crash stay written
+func VH_C14_crash_history() {
+	sh := vShard(2)
+	recA, _ := vPlainRecord("a", 6)
+	recB, _ := vPlainRecord("b", 4+2*sh)
+	recs := []gts.Sequence{recA, recB}
+	stdin := []byte("two-records")
+	home := "/cache-home"
+	if !vIsModel() {
+		home = vTempDir()
+	}
+	baseOut, baseSt := vRunCachedP("delete", deleteFunc, []string{"--no-cache", "5..6"}, recs, stdin, home)
+	vCover("baseline")
+	vAssert("baseline-status", baseSt == 2-2*sh)
+	for k := 0; k < 3; k++ {
+		out, st := vRunCachedP("delete", deleteFunc, []string{"5..6"}, recs, stdin, home)
+		vAssert("same-exit-status", st == baseSt)
+		vAssert("same-output", vSameB(out, baseOut))
+	}
+	vObserve("len", len(baseOut))
+}
+
 func vSameSeqs(a, b []gts.Sequence) bool {
 	if len(a) != len(b) {
 		return false
